@@ -103,7 +103,10 @@ func verifH_SrvHandlerOps() {
 				wantHdr = metadata.Join(wantHdr, md)
 			}
 		case 1:
-			md := vSomeMD("sendhdr")
+			var md metadata.MD // nil: "send what has been set so far" - refused like any other once headers are out
+			if !verifBool("sendHeaderWithoutMetadata") {
+				md = vSomeMD("sendhdr")
+			}
 			err := st.SendHeader(md)
 			if hdrSent {
 				verifAssert(err != nil, "C13.second-send-header-refused")
